@@ -22,7 +22,8 @@ ASSUMPTIONS = ["a read() of a file-like source returns at least one character/by
 SHRINK = {"text": "str", "schedule": "list"}
 
 CHUNKS = [1, 2, 3, 4, 5, 7, 16, 64, 10240]
-KINDS = ["str", "stringio", "textstream", "bytes", "bytesio", "bytestream"]
+KINDS = ["str", "stringio", "textstream", "bytes", "bytesio", "bytestream", "stringio-sub", "stringio-advanced", "bytesio-sub", "textstream", "bytestream"]
+ENTRIES = ["method", "method", "method", "function", "fragment-method", "fragment-function"]
 ENCODINGS = ["utf-8", "windows-1252", "iso-8859-2", "shift_jis", "euc-jp", "gbk", "big5", "euc-kr", "koi8-r", "windows-1251", "gb18030", "iso-8859-15",
              "bom-utf-8", "bom-utf-16le", "bom-utf-16be", "utf-16le", "utf-16be", "utf-16"]
 PYCODEC = {"windows-1252": "cp1252", "windows-1251": "cp1251", "euc-kr": "cp949", "shift_jis": "cp932", "big5": "big5hkscs", "iso-8859-15": "iso8859-15"}
@@ -84,13 +85,54 @@ def project(text, enc):
     return body, ref, enc, "arg"
 
 
-def run_parse(source, chunk, kw):
+class _SubStringIO(io.StringIO):
+    """a genuine io.StringIO subclass whose read() delivers short reads along a schedule"""
+
+    def __init__(self, text, schedule):
+        io.StringIO.__init__(self, text, newline="")
+        self._schedule, self._i = list(schedule) or [1], 0
+
+    def read(self, n=-1):
+        if n is None or n < 0:
+            n = 1 << 30
+        if n:
+            n = max(1, min(n, self._schedule[self._i % len(self._schedule)]))
+            self._i += 1
+        return io.StringIO.read(self, n)
+
+
+class _SubBytesIO(io.BytesIO):
+    def __init__(self, data, schedule):
+        io.BytesIO.__init__(self, data)
+        self._schedule, self._i = list(schedule) or [1], 0
+
+    def read(self, n=-1):
+        if n is None or n < 0:
+            n = 1 << 30
+        if n:
+            n = max(1, min(n, self._schedule[self._i % len(self._schedule)]))
+            self._i += 1
+        return io.BytesIO.read(self, n)
+
+
+def run_parse(source, chunk, kw, entry="method"):
+    """entry: HTMLParser.parse / html5lib.parse() / HTMLParser.parseFragment / html5lib.parseFragment() (the functions give no access to errors)"""
+    import html5lib
     from html5lib import _inputstream
     old = _inputstream.HTMLUnicodeInputStream._defaultChunkSize
     _inputstream.HTMLUnicodeInputStream._defaultChunkSize = chunk
     try:
+        if entry == "function":
+            r = html5lib.parse(source, treebuilder="etree", **kw)
+            return obs.flat(r), None, None
+        if entry == "fragment-function":
+            r = html5lib.parseFragment(source, container="div", treebuilder="etree", **kw)
+            return obs.flat(r), None, None
         p = h5.parser("etree", True, full_tree=True)
-        r = p.parse(source, **kw)
+        if entry == "fragment-method":
+            r = p.parseFragment(source, container="div", **kw)
+        else:
+            r = p.parse(source, **kw)
         return obs.flat(r), [(code, pos[0], pos[1]) for (pos, code, v) in p.errors], p
     finally:
         _inputstream.HTMLUnicodeInputStream._defaultChunkSize = old
@@ -123,9 +165,11 @@ def boundaries_kinds(ref_text, cuts):
 def check_case(case):
     text, kind, chunk, schedule = case["text"], case["kind"], int(case["chunk"]), list(case.get("schedule") or [1])
     enc, via = case.get("encoding"), case.get("via", "transport")
+    entry = case.get("entry", "method")
     kw = {}
     bkinds = set()
-    if kind in ("bytes", "bytesio", "bytestream"):
+    how = None
+    if kind in ("bytes", "bytesio", "bytestream", "bytesio-sub"):
         try:
             data, ref_text, label, how = project(text, enc)
         except Exception as e:
@@ -136,6 +180,8 @@ def check_case(case):
             source = data
         elif kind == "bytesio":
             source = io.BytesIO(data)
+        elif kind == "bytesio-sub":
+            source = _SubBytesIO(data, schedule)
         else:
             source = ShortReads(data, schedule)
         if len(data) != len(ref_text):
@@ -146,14 +192,22 @@ def check_case(case):
             source = text
         elif kind == "stringio":
             source = io.StringIO(text, newline="")
+        elif kind == "stringio-sub":
+            source = _SubStringIO(text, schedule)
+        elif kind == "stringio-advanced":
+            # the stream has been read from before: the document is what is left
+            junk = "<!--junk-->\r<b>" * (1 + schedule[0] % 3)
+            source = io.StringIO(junk + text, newline="")
+            source.read(len(junk))
         else:
             source = ShortReads(text, schedule)
+    ref_entry = entry      # the reference is the same entry point given the characters as one str
     try:
-        want_tree, want_err, _ = run_parse(ref_text, 10240, {})
+        want_tree, want_err, _ = run_parse(ref_text, 10240, {}, ref_entry)
     except Exception as e:
         return Verdict("excluded", finding="reference parse raised %s" % type(e).__name__)
     try:
-        got_tree, got_err, p = run_parse(source, chunk, kw)
+        got_tree, got_err, p = run_parse(source, chunk, kw, entry)
     except Exception as e:
         return Verdict("fail", "%s: %s with kind=%s chunk=%d enc=%s schedule=%s on %s" % (type(e).__name__, short(str(e), 100), kind, chunk, enc, schedule[:8], short(text, 150)),
                        "exception:%s:%s" % (type(e).__name__, kind), nontrivial=True)
@@ -180,12 +234,16 @@ def check_case(case):
     bkinds |= boundaries_kinds(ref_text, cuts)
     nontrivial = bool(bkinds - {"byte-reads", "multibyte-text"})
     sig = sig64(ref_text, tuple(sorted(bkinds)), kind, chunk)
-    classes = ["kind:" + kind, "chunk:%d" % chunk] + ["boundary:" + b for b in bkinds] + (["enc:" + enc] if enc and kind.startswith("byte") else [])
-    cfg = "kind=%s chunk=%d enc=%s via=%s schedule=%s" % (kind, chunk, enc, via, schedule[:10])
+    classes = ["kind:" + kind, "entry:" + entry, "chunk:%d" % chunk] + ["boundary:" + b for b in bkinds] + (["enc:" + enc] if enc and kind.startswith("byte") else [])
+    cfg = "kind=%s entry=%s chunk=%d enc=%s via=%s schedule=%s" % (kind, entry, chunk, enc, via, schedule[:10])
     # recorded defect: BOM sniffing does one read(4) and trusts it to return 4 bytes
-    short_sniff = (kind == "bytestream" and how == "bom" and source.reads and
-                   (source.reads[0][1] - source.reads[0][0]) < min(4, len(data)) and active("C05-short-byte-reads-sniffing"))
-    if kind in ("bytes", "bytesio", "bytestream"):
+    short_sniff = False
+    if how == "bom" and active("C05-short-byte-reads-sniffing"):
+        if kind == "bytestream" and source.reads:
+            short_sniff = (source.reads[0][1] - source.reads[0][0]) < min(4, len(data))
+        elif kind == "bytesio-sub":
+            short_sniff = schedule[0] < min(4, len(data))
+    if kind in ("bytes", "bytesio", "bytestream", "bytesio-sub") and p is not None:
         de = p.documentEncoding
         exp = label
         import webencodings
@@ -194,10 +252,13 @@ def check_case(case):
                 return Verdict("known", finding="C05-short-byte-reads-sniffing", nontrivial=nontrivial, sig=sig, classes=classes)
             return Verdict("fail", "encoding declared certain (%s) but documentEncoding is %r; %s" % (exp, de, cfg), "encoding-not-honoured", nontrivial=nontrivial, classes=classes)
     if got_tree != want_tree:
+        if short_sniff and p is None:
+            # the function entry points give no documentEncoding to look at: the lost BOM shows in the tree
+            return Verdict("known", finding="C05-short-byte-reads-sniffing", nontrivial=nontrivial, sig=sig, classes=classes)
         d = obs.first_diff(want_tree, got_tree)
         return Verdict("fail", "tree differs from the one-shot str parse at record %d: expected %s, got %s; %s; text %s" % (d[0], short(d[1], 120), short(d[2], 120), cfg, short(ref_text, 200)),
                        "tree:%s" % ("bytes" if kind.startswith("byte") else "text"), nontrivial=nontrivial, sig=sig, classes=classes)
-    if got_err != want_err:
+    if got_err is not None and got_err != want_err:
         # recorded defect: stream-level 'invalid-codepoint' errors are queued per chunk, so their position and order depend on the chunking
         strip = lambda L: [e for e in L if e[0] != "invalid-codepoint"]
         if (strip(got_err) == strip(want_err) and len(got_err) == len(want_err) and active("C05-invalid-codepoint-position")):
@@ -255,7 +316,7 @@ def _texts(draw):
 
 
 _cases = st.tuples(_texts(), st.sampled_from(KINDS), st.sampled_from(CHUNKS), st.lists(st.integers(1, 9), min_size=1, max_size=12),
-                   st.sampled_from(ENCODINGS), st.sampled_from(["transport", "override"]))
+                   st.sampled_from(ENCODINGS), st.sampled_from(["transport", "override"]), st.sampled_from(ENTRIES))
 
 
 def shards(tier):
@@ -267,8 +328,8 @@ def run_shard(desc, seed, tier):
     acc = Acc()
 
     def fn(x):
-        text, kind, chunk, schedule, enc, via = x
-        case = {"text": text, "kind": kind, "chunk": chunk, "schedule": schedule, "encoding": enc, "via": via}
+        text, kind, chunk, schedule, enc, via, entry = x
+        case = {"text": text, "kind": kind, "chunk": chunk, "schedule": schedule, "encoding": enc, "via": via, "entry": entry}
         acc.add(case, check_case(case))
     drive(_cases, fn, desc["n"], seed)
     return acc
